@@ -13,6 +13,9 @@ sync() {
   rsync -a --delete --exclude target --exclude work "$here/engines/" "$root/engines/"
   cp "$here/check" "$root/check"
   [ -f "$here/known_findings.json" ] && cp "$here/known_findings.json" "$root/known_findings.json" || true
+  rm -rf "$root/known_findings.d"; [ -d "$here/known_findings.d" ] && cp -r "$here/known_findings.d" "$root/known_findings.d" || true
+  # rsync -a keeps mtimes: make cargo see every synced source as newer than any earlier build
+  find "$root/engines" \( -name '*.rs' -o -name '*.toml' \) -exec touch {} +
 }
 case $cmd in
   new)
